@@ -10,6 +10,7 @@
 import Kopf.Lemmas.C09_Timed
 import Kopf.Lemmas.C09_Timer
 import Kopf.Lemmas.C09_Escort
+import Kopf.Lemmas.C09_Inventory
 namespace Kopf.C09
 
 def cfgEx0 : Cfg := { backoff := some 64, timeout := some 128, polling := 3840 }
@@ -389,6 +390,64 @@ example : (∃ s i, runs cfgEx0 (St.init 0) [.cycle evEx0, .tick 100, .exitBegin
     runs cfgEx0 (St.init 0) [.cycle evEx0, .tick 100, .exitBegin, .tick 1] = none ∧
     runs cfgEx0 (St.init 0) [.cycle evEx0, .tick 100, .exitBegin, .kBegin .exiting, .tick 65] = none :=
   ⟨⟨_, _, rfl, by decide, by decide, rfl, by decide⟩, by decide, by decide⟩
+
+/-! ## the exit mark reaches EVERY memory the operator knows — also those without any instance (seed C09g)
+
+  `exitBegin` of the one-pair model marks the pair's memory whatever it holds. In the code that is a loop over the view
+  `iter_all_daemon_memories` (Model/C09_Inventory.lean), shared with the killer's stopping loops — for which the
+  memories without running daemons are of no interest (`filtered_view_same_for_stopping`). For the mark they are: a
+  known object without an instance can still have an event in its worker's backlog. `viewAll` = the tree variant, tied
+  to the AST (`Tie.views_every_memory`); the S tie compares every cycle after the sweep with `exiting := true`. -/
+
+/-- with the full view the mark reaches every remembered memory, whatever it holds (idle or busy) -/
+theorem exit_mark_covers_every_memory (inv : Inv.Inventory) (k : Inv.Key) (m : Inv.Mem)
+    (h : Inv.get (Inv.markExiting true inv).items k = some m) : m.exiting = true :=
+  (Inv.mark_all_marked inv).2 (k, m) (Inv.get_mem h)
+
+/-- "nothing is spawned afterwards": after the mark (full view), whatever the workers and the runners still do, in any
+    order and any number of times — events of known objects (idle or busy at the sweep), of objects never seen before,
+    DELETED events, instances ending — no instance is created, and every memory handed to a further cycle is marked -/
+theorem nothing_spawned_after_exit_mark (inv : Inv.Inventory) (os : List Inv.Op) :
+    (Inv.runOps (Inv.markExiting true inv) os).spawns = inv.spawns ∧
+    ∀ k, (Inv.recall (Inv.runOps (Inv.markExiting true inv) os) k).2.exiting = true := by
+  obtain ⟨h1, h2⟩ := Inv.run_marked (Inv.mark_all_marked inv) os
+  exact ⟨h2, fun k => (Inv.recall_marked h1 k).2.1⟩
+
+/-- a memory without running daemons is in the view exactly when the view is the full one -/
+theorem idle_memory_in_view_iff (viewAll e : Bool) : Inv.inView viewAll { running := 0, exiting := e } = viewAll := by
+  cases viewAll <;> rfl
+
+/-- why the filtered view looks harmless: the killer's stopping loops reach the same daemons through either view -/
+theorem filtered_view_same_for_stopping (inv : Inv.Inventory) : Inv.reached false inv = Inv.reached true inv :=
+  Inv.reached_list inv.items
+
+def invEx : Inv.Inventory :=
+  { items := [(1, { running := 1, exiting := false }), (2, { running := 0, exiting := false })], exitingLater := false, spawns := 1 }
+
+/-- witness of seed C09g (`viewAll = false`; corpus/C09/exit-idle-never-matched.json): object 1 has a daemon, object 2 is
+    known and idle; the mark skips 2; the daemon of 1 ends; the queued event of 2 (one handler matches now) is processed
+    after the sweep: a second instance is created, in a memory that is not marked — and the killer is gone -/
+theorem exit_mark_skips_idle_witness :
+    (Inv.runOps (Inv.markExiting false invEx) [.ended 1, .cycle 2 1]).spawns = 2 ∧
+    Inv.get (Inv.runOps (Inv.markExiting false invEx) [.ended 1, .cycle 2 1]).items 2 = some { running := 1, exiting := false } ∧
+    ¬ Inv.Marked (Inv.markExiting false invEx) := by
+  refine ⟨by decide, by decide, ?_⟩
+  intro h
+  have := h.2 (2, { running := 0, exiting := false }) (by decide)
+  cases this
+
+/-- the same history in the tree as it is: nothing is created; an object seen for the first time is refused too -/
+example : (Inv.runOps (Inv.markExiting true invEx) [.ended 1, .cycle 2 1, .cycle 3 2]).spawns = 1 := by decide
+
+/-- what the filtered view means for the one-pair model: for a pair whose memory is idle at the sweep the mark does not
+    happen (`marksExiting` is effectively false), and the processing cycle after the killer has gone starts an instance
+    nobody is left to stop (`no_killer_after_final_sweep`) -/
+theorem idle_pair_respawns_under_filtered_view (c : Cfg) (s : St) (inp : CycIn) (h : Reach c s)
+    (hv : c.marksExiting = (treeMarksExiting && Inv.inView false { running := 0, exiting := false }))
+    (hd : s.killerDone = true) (hk : s.known = true) (hdel : inp.deleted = false)
+    (hm : inp.marked = false) (hmatch : inp.matching = true) (hf : s.forever = false)
+    (hn : s.run = none) : ∃ s', step c s (.cycle inp) = some s' ∧ s'.spawns = s.spawns + 1 ∧ s'.killerDone = true :=
+  respawned_while_exiting c s inp h (by rw [hv]; rfl) hd hk hdel hm hmatch hf hn
 
 /-! ## when the object disappears — also without the deletion mark (F10 repaired)
 
